@@ -148,6 +148,20 @@ def run(ctx):
         if not os.path.islink(link):
             os.symlink(root, link)
         variants.append(("symlink", os.path.join(link, "src/main.idl"), os.path.join(link, "inc"), other))
+        # an -I spelling that goes through a symbolic link and then "..": the parent of a link is the
+        # parent of what it points to (the directory the link itself sits in holds decoys)
+        anchor = A("inc", "zz_anchor")
+        os.makedirs(anchor, exist_ok=True)
+        lnkdir = os.path.join(work, "cases", str(k), "linkhome")
+        os.makedirs(lnkdir, exist_ok=True)
+        for f in fs["files"]:
+            if f["path"].startswith("inc/"):
+                open(os.path.join(lnkdir, os.path.basename(f["path"])), "w").write("struct Decoy { uint64 not_the_file_you_meant; };\nthis is not IDL {{{\n")
+        lnk = os.path.join(lnkdir, "lnk")
+        if not os.path.islink(lnk):
+            os.symlink(anchor, lnk)
+        variants.append(("symlink-then-dotdot", A("src/main.idl"), os.path.join(lnk, ".."), other))
+        variants.append(("symlink-then-dotdot-relative", A("src/main.idl"), os.path.join("lnk", ".."), lnkdir))
         # the main file reached through a symbolic link that lives in another directory: plain
         # includes resolve against the real file's directory, whatever that other directory holds
         for vname, decoy in (("file-symlink-elsewhere", False), ("file-symlink-decoy", True)):
